@@ -251,3 +251,48 @@ def curve_predicates(cx):
         Z2 = 'fp_sqr($self.z)'
         want = 'Eq(u256_cmp(phi(fp_sqr($self.y) | fp_sqr($self.y)), phi(fp_add(SM9_MODP_MONT_FIVE, fp_mul($self.x, fp_sqr($self.x))) | fp_add(fp_mul($self.x, fp_sqr($self.x)), fp_mul(SM9_MODP_MONT_FIVE, fp_mul(%s, fp_sqr(%s)))))), 0)' % (Z2, Z2)
         cx.add('I-CURVE', 'sm9/is_on_curve', [v for _, v in r] == [want], 'y^2 == x^3 + 5 (Z = 1) / y^2 == x^3 + 5 z^6: %s' % r, fn.loc())
+
+
+def acc_defs(cx, inst, fn, var, rng, call=None):
+    """I-ACC: the accumulator of a scalar multiplication is written only (a) before the loops (its start value) and
+    (b) inside the window loop whose one-iteration transfer function is decided by I-SCALAR.  A write anywhere else
+    (another loop, a fast path beside the window loop) changes the multiple that is computed while the window step
+    still matches."""
+    F = cx.F
+    P = Prov(fn, F, cut_loops=True); cn = Canon(fn, P)
+    fl = I.find_loop(fn, P, cn, rng, call)
+    if fl is None:
+        cx.lost('I-ACC', inst, 'window loop over %s not found in %s' % (rng, fn.short), fn.loc())
+        return
+    hdr, loop, latches = fl
+    ls = [i for i, l in enumerate(fn.locals) if l.get('name') == var]
+    if len(ls) != 1:
+        cx.lost('I-ACC', inst, 'accumulator `%s` not found in %s' % (var, fn.short), fn.loc())
+        return
+    in_any_loop = set()
+    for h, body in fn.natural_loops():
+        in_any_loop |= set(body)
+    bad = []
+    n = 0
+    for (b, i, kind) in P.defs.get(ls[0], []):
+        n += 1
+        if b in loop or b not in in_any_loop:
+            continue
+        bad.append(b)
+    cx.add('I-ACC', inst, not bad and n >= 2, 'accumulator `%s` of %s has %d definition(s); outside the window loop over %s only its start value is written%s'
+           % (var, fn.short, n, rng, '' if not bad else ' — but it is also written in another loop at bb%s' % sorted(set(bad))),
+           G.where(fn, bad[0]) if bad else fn.loc())
+
+
+def acc_rules(cx, which):
+    T = {
+        'sm2': [('sm2/scalar_mul', 'gm_sm2::p256_ecc::<impl p256_ecc::Point>::scalar_mul', 'r', 'Range::Range{0, 16}', 'point_add'),
+                ('sm2/g_mul', 'gm_sm2::p256_ecc::g_mul', 'r', 'Range::Range{0, 8}', None)],
+        'sm9': [('sm9/point_mul', 'gm_sm9::points::<impl points::Point>::point_mul', 'r', 'rev(Range::Range{0, 52})', None),
+                ('sm9/g_mul', 'gm_sm9::points::<impl points::Point>::g_mul', 'r', 'rev(Range::Range{0, 37})', None),
+                ('sm9/twist_point_mul', 'gm_sm9::points::<impl points::TwistPoint>::point_mul', 'r', 'Range::Range{0, 256}', None)],
+    }[which]
+    for inst, q, var, rng, call in T:
+        fn = cx.fn(q, 'I-ACC')
+        if fn is not None:
+            acc_defs(cx, inst, fn, var, rng, call)
